@@ -33,4 +33,4 @@ import pytest  # noqa: E402
 args = sys.argv[1:] or ["/repo/tests/test_reconciliation.py", "/repo/tests/test_w3c.py", "/repo/tests/test_api.py", "/repo/tests/test_discovery.py",
                         "-k", "not bioregistry and not github and not go_registry and not monarch and not obo and not remote and not rdflib "
                               "and not df_ and not file_bulk and not load_path and not shacl and not pydantic and not Types and not reference_constructor"]
-sys.exit(pytest.main(["-q", "-p", "no:cacheprovider", "-x" if False else "-q", *args]))
+sys.exit(pytest.main(["-q", "-p", "no:cacheprovider", *args]))
